@@ -3652,6 +3652,38 @@ impl Interpreter {
         }
     }
 
+    /// Abstract Relational Comparison `x < y` (ECMAScript 7.2.13).
+    /// `left_first` gives the evaluation order of the two ToPrimitive calls.
+    /// Returns `None` when the result is undefined (a NaN operand).
+    fn less_than(
+        &mut self,
+        x: &JsValue,
+        y: &JsValue,
+        left_first: bool,
+    ) -> Result<Option<bool>, JsError> {
+        let (px, py) = if left_first {
+            let px = self.coerce_to_primitive(x, "number")?;
+            let py = self.coerce_to_primitive(y, "number")?;
+            (px, py)
+        } else {
+            let py = self.coerce_to_primitive(y, "number")?;
+            let px = self.coerce_to_primitive(x, "number")?;
+            (px, py)
+        };
+        if let (JsValue::String(a), JsValue::String(b)) = (&px, &py) {
+            // Strings compare by UTF-16 code units
+            return Ok(Some(
+                a.as_str().encode_utf16().lt(b.as_str().encode_utf16()),
+            ));
+        }
+        let nx = self.coerce_to_number(&px)?;
+        let ny = self.coerce_to_number(&py)?;
+        if nx.is_nan() || ny.is_nan() {
+            return Ok(None);
+        }
+        Ok(Some(nx < ny))
+    }
+
     /// ToPrimitive: Convert an object to a primitive value.
     /// For wrapper objects (Number, String, Boolean), this calls valueOf/toString.
     /// `hint` specifies preference: "number" tries valueOf first, "string" tries toString first.
